@@ -70,6 +70,12 @@ add(_c('triv', defines=['NDEBUG', 'VT_TRIVIAL'], only=TRIV_ONLY,
        model_defines={'COPY_MAY_THROW': 0, 'DEFAULT_MAY_THROW': 0, 'ASSIGN_COPY_MAY_THROW': 0, 'ELEM_TRIVIAL': 1},
        facts=dict(_PF, TRIVIAL=1)))
 
+# minimal-requirement archetype: trivially constructible, not assignable (C13: the fast paths add no requirement).
+# If this TU does not instantiate, that is a C13 violation (the compiler's diagnostic is the replay).
+add(_c('triv_na', tu='cfg_na.cpp', defines=['NDEBUG', 'VT_TRIVIAL', 'VT_NO_ASSIGN'], only=['svb_ctor__ul_pcA', 'svb_ctor__ul_pcE_pcA', 'svb_append_element__pcE'],
+       model_defines={'COPY_MAY_THROW': 0, 'DEFAULT_MAY_THROW': 0, 'ASSIGN_COPY_MAY_THROW': 0, 'ELEM_TRIVIAL': 1}, compile_obligation='C13', props=['C13'],
+       facts=dict(_PF, TRIVIAL=1)))
+
 # the configuration class excluded everywhere else: inline capacity larger than max_size () (known finding KF-C12-1)
 add(_c('kf_inline_gt_max', model_defines={'KF_INLINE_EXCEEDS_MAX_SIZE': 1}, only=['svb_append_element__pcE'], props=['C12'],
        facts={'MOVE_NOEXCEPT': 1, 'COPYABLE': 1, 'RELOCATE_WITH_MOVE': 1, 'POCCA': 0, 'POCMA': 0, 'POCS': 0, 'ALWAYS_EQUAL': 0}))
@@ -91,8 +97,8 @@ def cfg_defines(cfg):
     return d
 
 TIERS = {
-    'quick': ['main', 'tmove', 'aprop', 'aeq', 'pocs', 'pair_lt', 'pair_gt', 'n0', 'u8', 'kf_inline_gt_max'],
-    'thorough': ['main', 'tmove', 'aprop', 'aeq', 'pocs', 'pair_lt', 'pair_gt', 'n0_full', 'u8', 'kf_inline_gt_max', 'pocca', 'pocma', 'pocca_pocma', 'pocca_pocs', 'pocma_pocs'],
+    'quick': ['main', 'tmove', 'aprop', 'aeq', 'pocs', 'pair_lt', 'pair_gt', 'n0', 'u8', 'triv', 'triv_na', 'kf_inline_gt_max'],
+    'thorough': ['main', 'tmove', 'aprop', 'aeq', 'pocs', 'pair_lt', 'pair_gt', 'n0_full', 'u8', 'triv', 'triv_na', 'kf_inline_gt_max', 'pocca', 'pocma', 'pocca_pocma', 'pocca_pocs', 'pocma_pocs'],
 }
 
 # ---- quick tier: per property, the proofs run on every change (measured: <= ~10 min on 16 cores each).
@@ -121,7 +127,10 @@ QUICK = {
                       'svb_emplace_into_reallocation__pE_pcE', 'svb_assign_with_copies', 'svb_ctor__ul_pcE_pcA', 'svb_ctor__pcE_pcE_pcA', 'svb_append_range__strong_pcE_pcE',
                       'svb_insert_copies@realloc', 'sv_max_size', 'sv_reserve'],
                 u8=['ai_external_range_length__pcE_pcE', 'svb_unchecked_calculate_new_capacity', 'svb_append_copies', 'svb_ctor__pcE_pcE_pcA']),
-    'C13': _GLOBAL,
+    'C13': {'main': _LEAVES_Q + ['svb_append_element__pcE', 'svb_emplace_into_current__pE_pcE', 'svb_erase_range', 'svb_ctor__ul_pcA', 'svb_request_capacity'],
+            'triv': ['ai_uninitialized_fill__pE_pE_pcE', 'svb_append_element__pcE', 'svb_emplace_into_current__pE_pcE', 'svb_erase_range', 'svb_ctor__ul_pcA', 'svb_ctor__ul_pcE_pcA',
+                     'svb_request_capacity', 'svb_assign_with_copies', 'svb_copy_assign_default__pcsvb', 'svb_ctor__pcE_pcE_pcA'],
+            'triv_na': ['svb_ctor__ul_pcA', 'svb_ctor__ul_pcE_pcA']},
     'C05': {'main': ['svb_append_element__pcE', 'svb_append_element__pE', 'svb_request_capacity', 'svb_shrink_to_size', 'svb_resize_with__ul', 'svb_append_range__strong_pcE_pcE',
                      'svb_append_range__strong_FI_FI', 'svb_emplace_into_reallocation__pE_pcE', 'sv_push_back__pcE', 'sv_push_back__pE', 'sv_emplace_back__pcE', 'sv_reserve',
                      'sv_shrink_to_fit', 'sv_resize__ul', 'sv_append__pcE_pcE'],
